@@ -341,7 +341,9 @@ def setup():
     for d in sorted(os.listdir(cr)):
         if os.path.exists(os.path.join(cr, d, "src", "main.rs")):
             pk.append(d)
-    build_harness(pk)
+    # one package at a time: feature unification must be the same as when a check builds only its own crate
+    for p in pk:
+        build_harness([p])
     # second artefact: the engine with the enum value representation (used by C12)
     build_harness(["hval", "hjs"], features="hval/jsvalue-enum hjs/jsvalue-enum", target_subdir="enum")
     return 0 if ok else 2
